@@ -484,7 +484,9 @@ func TestVerifDriver(t *testing.T) {
 				chain(vRand(3), vBytes(v.In["entropy"]), false)
 				continue
 			}
+			vForce = v.Mode
 			emit(v.Op, v.In)
+			vForce = ""
 		}
 		return
 	}
